@@ -62,12 +62,13 @@ CLAIMED = {
              "only at end-of-stream; C09_eof_persists - at the terminator every later read returns Ok(0) without touching the transport's read "
              "side; C09_read_to_end, C09_handler_reads - a handler mixing read / read_to_end / fill_buf+consume with any buffer sizes observes "
              "exactly a prefix of the stream content, in order, once each; C09_handler_reads_and_switches - after set_stream the bytes delivered "
-             "are content of the newly selected stream only (trace law over the handler's observations); C09_gate / C09_initial_gate / "
+             "are content of the newly selected stream only (trace law over the handler's observations); C09_handler_reads_with_writes - the same "
+             "trace law for EVERY handler script of the family, writes and flushes interleaved anywhere (all eleven opcodes, write faults included); C09_gate / C09_initial_gate / "
              "C09_writeable - the writeable flag is opened only by a successful parser call while the active stream is the role's final one (or "
              "at construction for roles whose first stream is final) and never closed. Tie: differential execution of handler scripts "
              "(all ops, buffer sizes 0..n) over cutting/Pending transports with mid-stream management records.",
         design="6/C09", technique="Coq proof (conservation record acct over poll_input / await_input / run_handler; trace law for stream switches; gate lemmas) + differential execution of scripted handlers",
-        note="handlers with write ops are covered by C10/C07; writeable() returning Ok with the gate still closed is possible only after a parser error (observation O1 in DESIGN.md, outside the property's compliant-client clause)."),
+        note="writeable() returning Ok with the gate still closed is possible only after a parser error (observation O1 in DESIGN.md, outside the property's compliant-client clause)."),
     "C11": dict(
         text="Proof: C11_abort_in_params - during Params an AbortRequest for the request in progress is consumed entirely, exactly one "
              "EndRequest(RequestComplete, 0, id) is emitted and the parser returns to Header, so no request is produced and no handler can be "
@@ -199,13 +200,20 @@ CLAIMED = {
              "bytes after the preamble for every look-ahead (C05_leftover_exact). Stream parser - C05_stream_handoff: over every legal schedule "
              "the unparsed input is exactly the unread suffix of leftover ++ fed; at a record boundary with the output taken, "
              "into_request_parser succeeds and the new request parser holds exactly those bytes with unchanged capacity in state Header; "
-             "into_input returns them; off a boundary both refuse (Interrupted) without touching anything. The k-request chain composes these "
-             "per-hand-off theorems; it is additionally exercised end to end by the correspondence check (k = 1..4/8 requests on one buffer, "
-             "reader policies never/mid/end, gated client) + oracle. Observation recorded in DESIGN.md: a stream parser told to skip "
-             "(set_stream(None)) consumes a buffered next BeginRequest as a foreign one; the hand-offs therefore assume the next request's bytes "
-             "are not yet buffered (one-outstanding client).",
-        design="6/C05", technique="Coq proof (rest-is-suffix through drive/parse/schedule; stream-parser raw-bytes conservation and conversion lemmas) + differential execution of conversion chains with gated client",
-        note="the k-fold composition itself is not stated as one theorem; into_request_parser with pending output is the crate's debug_assert (contract)."),
+             "into_input returns them; off a boundary both refuse (Interrupted) without touching anything. THE K-REQUEST CHAIN ('Consequently ...') is one theorem, C05_chain: k requests back to back (C01's "
+             "preamble family, records closing each request's streams), every read schedule of every request parser, every legal stream-phase "
+             "behaviour of the caller (reading nothing / part / all of each stream, any chunking, any number of later-stream selections), any "
+             "look-ahead at every hand-off up to the whole rest of the connection: all k stages complete, request i is exactly the i-th "
+             "transmitted one (= the same request alone on a fresh connection, C05_chain_separately), stage i hands out only prefixes of "
+             "request i's stream contents, and what is left is a suffix of the last request's records plus the trailing bytes. It rests on "
+             "C05_stream_phase: during the stream phase the parser never reads past the request's own records (it stands at the terminator of "
+             "the selected stream) - a new position invariant through the abstract parse loop. Caller obligations are exactly chain_legal "
+             "(legal calls, hand-off at a record boundary with the output taken, the reused parser looks at its leftover first, no parse during "
+             "the stream phase of a role WITHOUT input streams: with no stream selected the parser discards everything, including a pipelined "
+             "successor - witness C05_authorizer_overread, DESIGN.md observation O4). The chain is also exercised end to end by the "
+             "correspondence check (k = 1..4/8 requests on one buffer, reader policies never/mid/end, gated client) + oracle.",
+        design="6/C05", technique="Coq proof (rest-is-suffix through drive/parse/schedule; stream-parser raw-bytes conservation, position invariant and conversion lemmas; induction over the k requests) + differential execution of conversion chains with gated client",
+        note="into_request_parser with pending output is the crate's debug_assert (contract); set_stream(None) during the stream phase is outside the chain theorem (it discards everything by design)."),
     "C07": dict(
         text="Proof on the connection model (Async/Conn.v: Token::run, parse_request, Request::{poll_input, poll_output, writeable, record_boundary, "
              "close}, StreamWriter writes, scripted handlers/transport/gated client): C07_handler_sees_exactly_the_request - Token::parse_request "
